@@ -186,7 +186,13 @@ func c18Value(r *rand.Rand, depth int, feats map[string]bool) interface{} {
 		}
 		m := map[string]interface{}{}
 		for i := 0; i < n; i++ {
-			m[c18Name(r)] = c18Value(r, depth-1, feats)
+			k := c18Name(r)
+			if r.Intn(12) == 0 {
+				// legal names that are spelled like literals
+				k = []string{"true", "false", "null", "on", "fragment", "query"}[r.Intn(6)]
+				feats["key-spelled-like-a-keyword"] = true
+			}
+			m[k] = c18Value(r, depth-1, feats)
 		}
 		if len(m) == 0 {
 			feats["emptymap"] = true
